@@ -203,6 +203,20 @@ def check_partition(ctx):
         alt = [x for x in ast.walk(fi.node) if isinstance(x, (ast.ListComp, ast.GeneratorExp)) and canon(x.generators[0].iter, {gname: 'G'}) == 'G' and not x.generators[0].ifs]
         alt += [x for x in ast.walk(fi.node) if isinstance(x, ast.For) and canon(x.iter, {gname: 'G'}) == 'G'
                 and not any(isinstance(y, (ast.Continue, ast.Break, ast.If)) for b_ in x.body for y in ast.walk(b_))]
+        filtered = [x for x in ast.walk(fi.node) if isinstance(x, (ast.ListComp, ast.GeneratorExp)) and canon(x.generators[0].iter, {gname: 'G'}) == 'G' and x.generators[0].ifs]
+        if not enum_ok and not alt and filtered:
+            # members of the run are skipped: the generic loop calls the pack / unpack of every field,
+            # so this is right only for fields whose pack and unpack do nothing at all
+            flt = filtered[0].generators[0]
+            verdict, why = _skipped_members_are_noops(repo, flt)
+            st = '%s: for %s in run if %s' % (mname, canon(flt.target), canon(flt.ifs[0])[:60])
+            if verdict is False:
+                ctx.violation(rule, fi, st, 'fields are left out of the generated code although the generic loop calls them and they do something: %s' % why, filtered[0].lineno, clause='c', witness=True)
+            elif verdict is True:
+                ctx.holds(rule, fi, st, 'only fields whose pack and unpack do nothing are left out (%s)' % why, filtered[0].lineno, clause='c')
+            else:
+                ctx.undecided(rule, fi, st, 'members of the run are left out of the generated code: %s' % why, filtered[0].lineno, clause='c')
+            continue
         if not enum_ok:
             if alt:
                 ctx.holds(rule, fi, '%s: one block per element of the run' % mname, 'iterates the run itself', fi.node.lineno, clause='c')
@@ -510,6 +524,15 @@ def check_struct_block(ctx):
                 # the (key, run) pairs come from a helper: every return of it must be runs keyed on
                 # the endianness or singletons with their own endianness
                 v, why = helper_runs_verdict(repo, cg, src)
+                if v is None and isinstance(src, ast.Call) and isinstance(src.func, ast.Attribute) and src.func.attr in ('items', 'values') and isinstance(src.func.value, ast.Name):
+                    # the runs are the values of a mapping filled member by member: all the members with
+                    # one key end in one group wherever they stand -- not runs of neighbours
+                    dname = src.func.value.id
+                    fills = [n for n in ast.walk(ff.node) if isinstance(n, ast.Call) and isinstance(n.func, ast.Attribute) and n.func.attr == 'append'
+                             and ((isinstance(n.func.value, ast.Call) and isinstance(n.func.value.func, ast.Attribute) and n.func.value.func.attr == 'setdefault'
+                                   and canon(n.func.value.func.value) == dname) or (isinstance(n.func.value, ast.Subscript) and canon(n.func.value.value) == dname))]
+                    if fills:
+                        v, why = False, 'the mapping %s, which collects the fields by key regardless of where they stand: fields that are not neighbours are packed in one struct call, so the order of the fields on the wire changes' % dname
                 if v is True:
                     ctx.holds(rule, ff, st, 'runs from %s' % why, c.lineno, clause='d')
                 elif v is False:
@@ -605,6 +628,47 @@ def find_groupby_key(func, src):
                     if isinstance(lam, ast.Lambda) and lam.args.args:
                         return canon(lam.body, {lam.args.args[0].arg: 'T'})
     return None
+
+
+def _skipped_members_are_noops(repo, gen):
+    """the filter ``if not f.<flag>`` / ``if f.<flag> is False`` on the field of a run member: every
+    field class whose constructor can set <flag> to something else than False must have pack /
+    unpack strategies that do nothing (return the fragments / the cursor)"""
+    if len(gen.ifs) != 1:
+        return None, 'more than one filter'
+    t = gen.ifs[0]
+    flag = None
+    if isinstance(t, ast.UnaryOp) and isinstance(t.op, ast.Not) and isinstance(t.operand, ast.Attribute):
+        flag = t.operand.attr
+    if flag is None:
+        return None, 'filter %s is not of the form "not field.<flag>"' % canon(t)[:50]
+    may_skip, open_ = [], []
+    for ci in repo.field_classes():
+        init = ci.methods.get('__init__')
+        if init is None:
+            continue
+        for n in ast.walk(init.node):
+            if isinstance(n, ast.Assign) and any(isinstance(x, ast.Attribute) and x.attr == flag and canon(x.value) == 'self' for x in n.targets):
+                if isinstance(n.value, ast.Constant) and n.value.value is True:
+                    may_skip.append(ci)
+                elif not (isinstance(n.value, ast.Constant) and n.value.value is False):
+                    open_.append(ci)
+    if not may_skip and not open_:
+        return None, 'no field class sets %s' % flag
+    for ci in may_skip:
+        for kind, ret in (('pack', 'fragments'), ('unpack', 'offset')):
+            for s_ in repo.strategies(ci):
+                f_ = s_.get(kind)
+                if f_ is None:
+                    continue
+                body = [b for b in f_.node.body if not (isinstance(b, ast.Expr) and isinstance(b.value, ast.Constant))]
+                if any(isinstance(x, ast.Call) for b in body for x in ast.walk(b)) or any(isinstance(b, (ast.Assign, ast.AugAssign)) for b in body):
+                    if all(isinstance(b, ast.Return) for b in body):
+                        continue
+                    return False, '%s sets %s and its %s (%s) is not a no-op' % (ci.name, flag, kind, f_.qual)
+    if open_:
+        return None, '%s sets %s from a constructor argument: which of its strategies are skipped is not followed' % (open_[0].name, flag)
+    return True, '%s' % ', '.join(sorted({c.name for c in may_skip}))
 
 
 def _same_sequence(v, name):
@@ -1008,6 +1072,21 @@ def check_primitive_siblings(ctx):
                     ctx.violation('R2-struct-block', dc, st, "the struct code of Data(n) must be '%is' % byte_count", e.lineno, clause='d')
     if not seen:
         ctx.undecided('R2-struct-block', dc, 'Data._compile', 'no path stores struct_code', dc.node.lineno, clause='d')
+    # ... and the generic reader of a constant-size byte string accepts exactly the inputs the
+    # generated StructUnpack('<n>s', raw[offset:offset+n]) accepts: a slice of exactly n bytes
+    from ..model import strategy_variants
+    from .c04 import check_strategy_strict
+    n_s = 0
+    for ci, fi, s_, parked in strategy_variants(repo, 'unpack'):
+        if ci.name != 'Data' or 'struct_code' not in (s_.get('defs') or {}):
+            continue
+        n_s += 1
+        try:
+            check_strategy_strict(ctx, ci, fi, s_, parked, rule='R2-generic-sibling-strict')
+        except Undecided as e:
+            ctx.undecided('R2-generic-sibling-strict', fi, fi.qual, str(e), fi.node.lineno, clause='d')
+    if not n_s:
+        ctx.undecided('R2-generic-sibling-strict', dc, 'Data._compile', 'no strategy of Data defines a struct code', dc.node.lineno, clause='d')
 
 
 def check_driver_holes(ctx, rule='R2-skeleton'):
